@@ -7,6 +7,7 @@ import (
 	_ "verif/props/c07"
 	_ "verif/props/c08"
 	_ "verif/props/c09"
+	_ "verif/props/c14"
 	_ "verif/props/c15"
 	_ "verif/props/c16"
 	_ "verif/props/c17"
